@@ -21,6 +21,9 @@ def try_from_syntax_table(P):
         for cn, lab, ct in q.guard_calls(b, bb):
             if cn == BK + "::Exchange::is_zero" and lab is False:
                 zero = True
+            if cn == "rust_decimal::Decimal::is_zero" and lab is False and ct["args"] and \
+                    q.all_roots(b, ct["args"][0], lambda r: r.kind == "call" and r.fields[-1:] == ("value",)):
+                zero = True     # the same test with Exchange::is_zero folded in: the evaluated rate's value
             if callee_def(ct) == "std::cmp::PartialEq::eq" and lab is False:
                 names = " ".join(mir.prov_strs(b, ct["args"][0]) + mir.prov_strs(b, ct["args"][1]))
                 if "commodity" in names:
